@@ -120,6 +120,8 @@ def merge_pass(ob, log, budget_ms=2000):
     reps_by = {}
     rmemo = {}
     penv = []
+    eqs = _eq_subst(ob)
+    smemo = {}
     for n in nodes:
         k = (n.op, n.a[0], len(n.a)) if n.op == 'app' else (n.op,)
         reps = reps_by.setdefault(k, [])
@@ -127,6 +129,9 @@ def merge_pass(ob, log, budget_ms=2000):
         for r in reps:
             rargs = r.a[1:] if r.op == 'app' else r.a
             diff = [(x, y) for x, y in zip(args, rargs) if x is not y]
+            if diff and eqs:
+                from .ir import subst as _sb
+                diff = [(x2, y2) for x2, y2 in ((_sb(x, eqs, smemo), _sb(y, eqs, smemo)) for x, y in diff) if x2 is not y2]
             if not diff:
                 ok = True
             elif any(x.op == 'c' and y.op == 'c' for x, y in diff):
@@ -152,6 +157,20 @@ def merge_pass(ob, log, budget_ms=2000):
         else:
             reps.append(n)
     return parent
+
+
+def _eq_subst(ob):
+    """hypotheses of the form  variable == term  as a substitution (used to compare application arguments modulo simple
+    equalities of the path condition, e.g. the branch `curve temperature == feed temperature`)"""
+    m = {}
+    for h in ob.hyps:
+        for c in (h.a if h.op == 'and' else (h,)):
+            if c.op == 'cmp' and c.a[0] == '==':
+                a, b = c.a[1], c.a[2]
+                for v, t in ((a, b), (b, a)):
+                    if v.op == 'v' and v.a[0] not in m and v.a[0] not in free_vars(t) and not any(v.a[0] in free_vars(x) for x in m.values()):
+                        m[v.a[0]] = t; break
+    return m
 
 
 def _numerically_different(diff, ob, penv):
